@@ -6,7 +6,7 @@ KEYWORDS = ["SELECT", "DISTINCT", "FROM", "WHERE", "GROUP BY", "HAVING", "WITH",
             "CASE", "WHEN", "THEN", "ELSE", "END", "LIKE", "IS", "NOT", "NULL", "OVER", "PARTITION BY", "TRUE", "FALSE", "true", "false"]
 
 
-KEEP = {"vboom", "vboomsum", "in", "and", "or", "not", "as", "on", "when", "then", "else", "over", "with", "by", "like", "is"}      # user functions registered under one spelling; words that may precede "("
+KEEP = {"vboom", "vboomsum", "vpark", "in", "and", "or", "not", "as", "on", "when", "then", "else", "over", "with", "by", "like", "is"}      # user functions registered under one spelling; words that may precede "("
 
 
 def relayout(txt, rng, allow_fnupper=True):
